@@ -86,7 +86,6 @@ DirectionM     == IsM => \A k \in KSet : Sign(AddMonths(o, k) - o) = Sign(k)
 \* ------------------------------------------------------------------------ generators -------
 \* S2C: every (start, bump) of a window with the instant the specification expects
 GenDays == LET a == NormYM(GenY, GenM0)  b == NormYM(GenY, GenM1) IN Ord(a[1], a[2], 1)..Ord(b[1], b[2], DIM(b[1], b[2]))
-GenTimes == {<<34200, 0>>, <<86399, 999999>>}
 
 InitGenU == blk = <<"u", 0, 0>> /\ o \in GenDays /\ n \in NRange /\ done = FALSE
 GenU == /\ done = FALSE /\ done' = TRUE /\ UNCHANGED <<blk, o, n>>
